@@ -104,7 +104,7 @@ CFG = st.one_of(
               st.sampled_from([{"max_count": 70000, "num_reserved": 0}, {"max_count": 10**6, "num_reserved": 1023}, {"max_count": 70000, "num_reserved": 65000}])),
 )
 
-BIG = [CEIL - 3, CEIL - 2, CEIL - 1, CEIL, CEIL + 1, CEIL + 3, 2**31, 2**31 - 1, 2**33, (CEIL // 2) + 1]
+BIG = [CEIL - 3, CEIL - 2, CEIL - 1, CEIL, CEIL + 1, CEIL + 3, 2**31, 2**31 - 1, 2**33, (CEIL // 2) + 1, 2**63, 2**64 - 1, 2**64, 10**30]  # linear and heavy hitters take any Python int
 VALUES_BIG = st.one_of(st.sampled_from([0, 1, 2, 3]), st.sampled_from(BIG), st.sampled_from(BIG))
 VALUES_LOG = st.sampled_from([0, 1, 2, 3, 5, 100, 254, 255, 256, 1000, 65534, 65535, 65536, 70000])
 
